@@ -891,6 +891,317 @@ Proof.
   rewrite (loop_step _ i [] Hwf I). destruct (length (print_instr i)); reflexivity.
 Qed.
 
+(** * Block definitions *)
+
+(** what may follow a printed definition: the end of the input, or a line that is not indented *)
+Definition block_end (rest : list tok) : Prop :=
+  match rest with
+  | [] => True
+  | TNewLine :: TIndent :: _ => False
+  | TNewLine :: _ => True
+  | _ => False
+  end.
+
+Lemma block_end_line_end : forall rest, block_end rest -> line_end rest.
+Proof. intros [|[] rest] H; cbn in H; try contradiction; exact I. Qed.
+
+Lemma print_body_line_end : forall body rest, block_end rest -> line_end (print_body body ++ rest).
+Proof. intros [|i t] rest H; [apply block_end_line_end; exact H | exact I]. Qed.
+
+Lemma p_body_S : forall f r,
+  p_body Repaired (S f) (TNewLine :: TIndent :: r) =
+  match skip r with
+  | [] => Ok [] (TNewLine :: TIndent :: r)
+  | r1 =>
+      match p_instruction Repaired r1 with
+      | Ok i r2 =>
+          match p_body Repaired f r2 with
+          | Ok l r3 => Ok (i :: l) r3
+          | o => o
+          end
+      | Err => Err | Panic => Panic | Unk => Unk | Fuel => Fuel
+      end
+  end.
+Proof. reflexivity. Qed.
+
+Lemma p_body_end : forall f rest, block_end rest -> p_body Repaired (S f) rest = Ok [] rest.
+Proof.
+  intros f [|t0 [|t1 rest]] H; try reflexivity.
+  - destruct t0; try contradiction; reflexivity.
+  - destruct t0; try contradiction. destruct t1; try contradiction; reflexivity.
+Qed.
+
+Lemma p_body_rt : forall body, forallb wf_instr body = true ->
+  forall f rest, block_end rest -> length body < f ->
+    p_body Repaired f (print_body body ++ rest) = Ok body rest.
+Proof.
+  induction body as [|i t IH]; intros Hwf f rest Hbe Hf; cbn [length] in Hf; (destruct f as [|f]; [lia|]).
+  - apply p_body_end; exact Hbe.
+  - cbn [forallb] in Hwf. apply andb_true_iff in Hwf as [Hi Ht].
+    cbn [print_body flat_map]. fold (print_body t). cbn [app]. rewrite <- app_assoc.
+    rewrite p_body_S.
+    pose proof (print_instr_head i Hi (print_body t ++ rest)) as Hs. rewrite (skip_starts _ Hs).
+    pose proof (instr_rt i (print_body t ++ rest) Hi (print_body_line_end t rest Hbe)) as Hp.
+    destruct (print_instr i ++ print_body t ++ rest) as [|t0 ts0]; [contradiction|].
+    rewrite Hp. rewrite (IH Ht f rest Hbe) by lia. reflexivity.
+Qed.
+
+Lemma print_body_len : forall l, length l <= length (print_body l).
+Proof.
+  induction l as [|i l IH]; cbn [print_body flat_map length]; [lia|].
+  fold (print_body l). rewrite app_length. cbn [length]. lia.
+Qed.
+
+Lemma p_block_rt : forall body rest, nonempty body = true -> forallb wf_instr body = true ->
+  block_end rest -> p_block Repaired (print_body body ++ rest) = Ok body rest.
+Proof.
+  intros body rest Hne Hwf Hbe. unfold p_block. rewrite (p_body_rt body Hwf).
+  - destruct body; [discriminate|reflexivity].
+  - exact Hbe.
+  - rewrite app_length. pose proof (print_body_len body). lia.
+Qed.
+
+Lemma gate_head_rt : forall mods name ps qs rest, forallb wf_expr ps = true ->
+  p_gate (map TModifier mods ++ TId name :: print_params ps ++ map print_qubit qs ++ TColon :: rest)
+  = Ok (IGate mods name ps qs) (TColon :: rest).
+Proof.
+  intros mods name ps qs rest Hwf. unfold p_gate.
+  rewrite p_modifiers_rt by exact I. rewrite p_params_rt.
+  - cbn [bind]. rewrite p_qubits_rt by exact I. reflexivity.
+  - exact Hwf.
+  - intros _. destruct qs as [|[] qs]; cbn [map app print_qubit]; exact I.
+Qed.
+
+Definition vars_tail (l : list ident) : list tok := flat_map (fun x => [TComma; TVar x]) l.
+
+Lemma sep_vars_cons : forall x t, sep_vars (x :: t) = TVar x :: vars_tail t.
+Proof.
+  intros x t; revert x; induction t as [|y t IH]; intros x; [reflexivity|].
+  change (sep_vars (x :: y :: t)) with (TVar x :: TComma :: sep_vars (y :: t)). rewrite IH. reflexivity.
+Qed.
+
+Lemma p_vars_tail_rt : forall l rest,
+  p_vars_tail (vars_tail l ++ TRParen :: rest) = (l, TRParen :: rest).
+Proof.
+  induction l as [|x l IH]; intros rest; [reflexivity|].
+  cbn [vars_tail flat_map app p_vars_tail]. fold (vars_tail l). rewrite IH. reflexivity.
+Qed.
+
+Lemma p_var_params_rt : forall ps rest,
+  (ps = [] -> match rest with TLParen :: _ => False | _ => True end) ->
+  p_var_params (print_var_params ps ++ rest) = (ps, rest).
+Proof.
+  intros [|x t] rest Hr.
+  - specialize (Hr eq_refl). cbn [print_var_params app].
+    destruct rest as [|[] rest]; try contradiction; reflexivity.
+  - unfold print_var_params. rewrite sep_vars_cons. cbn [app]. rewrite <- app_assoc. cbn [app].
+    cbn [p_var_params]. rewrite p_vars_tail_rt. reflexivity.
+Qed.
+
+Lemma p_qvars_rt : forall l rest,
+  match rest with TVar _ :: _ | TId _ :: _ => False | _ => True end ->
+  p_qvars (map TId l ++ rest) = (l, rest).
+Proof.
+  induction l as [|x l IH]; intros rest H; cbn [map app].
+  - destruct rest as [|[] rest]; try contradiction; reflexivity.
+  - cbn [p_qvars]. rewrite (IH rest H). reflexivity.
+Qed.
+
+Lemma attrs_line_end : forall l rest, block_end rest -> line_end (flat_map print_attr l ++ rest).
+Proof. intros [|a l] rest H; [apply block_end_line_end; exact H | exact I]. Qed.
+
+Lemma p_attrs_end : forall f rest, block_end rest -> p_attrs (S f) rest = Ok [] rest.
+Proof.
+  intros f [|t0 [|t1 rest]] H; try reflexivity.
+  - destruct t0; reflexivity.
+  - destruct t0; try contradiction. destruct t1; try contradiction; reflexivity.
+Qed.
+
+Lemma p_attrs_rt : forall attrs, forallb wf_attr attrs = true ->
+  forall f rest, block_end rest -> length attrs < f ->
+    p_attrs f (flat_map print_attr attrs ++ rest) = Ok attrs rest.
+Proof.
+  induction attrs as [|[k v] t IH]; intros Hwf f rest Hbe Hf; cbn [length] in Hf; (destruct f as [|f]; [lia|]).
+  - apply p_attrs_end; exact Hbe.
+  - cbn [forallb] in Hwf. apply andb_true_iff in Hwf as [Hv Ht].
+    cbn [flat_map]. unfold print_attr at 1. cbn [fst snd].
+    destruct v as [s|e].
+    + cbn [app p_attrs]. rewrite (IH Ht f rest Hbe) by lia. reflexivity.
+    + unfold wf_attr in Hv. cbn [snd] in Hv.
+      pose proof (p_expr_rt e _ Hv (line_end_stop _ (attrs_line_end t rest Hbe))) as Hpe.
+      pose proof (print_e_head e) as Hh.
+      cbn [app]. rewrite <- app_assoc.
+      destruct (print_e e) as [|t0 pe]; [contradiction|]. cbn [app] in *.
+      destruct t0; try contradiction; try (destruct o; try contradiction);
+        cbn [p_attrs]; rewrite Hpe; rewrite (IH Ht f rest Hbe) by lia; reflexivity.
+Qed.
+
+Lemma attrs_len : forall l, length l <= length (flat_map print_attr l).
+Proof.
+  induction l as [|a l IH]; cbn [flat_map length]; [lia|]. rewrite app_length.
+  unfold print_attr at 1. cbn [length]. lia.
+Qed.
+
+(** [separated_list1] of expressions followed by anything that ends an expression and is not a comma *)
+Lemma p_expr_list_tail_gen : forall l, forallb wf_expr l = true ->
+  forall f rest, stop rest -> match rest with TComma :: _ => False | _ => True end -> length l < f ->
+    p_expr_list_tail f (tail_toks l ++ rest) = Ok l rest.
+Proof.
+  induction l as [|e l IH]; intros Hwf f rest Hs Hc Hf; cbn [length] in Hf; (destruct f as [|f]; [lia|]).
+  - cbn [tail_toks flat_map app]. destruct rest as [|[] rest]; try contradiction; reflexivity.
+  - cbn [forallb] in Hwf. apply andb_true_iff in Hwf as [He Hl].
+    cbn [tail_toks flat_map]. fold (tail_toks l). cbn [app p_expr_list_tail].
+    rewrite <- app_assoc.
+    assert (Hs' : stop (tail_toks l ++ rest)) by (destruct l; [exact Hs | cbn; repeat split]).
+    rewrite (p_expr_rt e _ He Hs').
+    rewrite (IH Hl f rest Hs Hc) by lia. reflexivity.
+Qed.
+
+Lemma p_expr_list1_rt : forall es rest, nonempty es = true -> forallb wf_expr es = true ->
+  stop rest -> match rest with TComma :: _ => False | _ => True end ->
+  p_expr_list1 (sep_exprs es ++ rest) = Ok es rest.
+Proof.
+  intros [|e t] rest Hne Hwf Hs Hc; [discriminate|].
+  cbn [forallb] in Hwf. apply andb_true_iff in Hwf as [He Ht].
+  rewrite sep_exprs_cons. rewrite <- app_assoc. unfold p_expr_list1, p_expr_list.
+  assert (Hs' : stop (tail_toks t ++ rest)) by (destruct t; [exact Hs | cbn; repeat split]).
+  rewrite (p_expr_rt e _ He Hs').
+  rewrite (p_expr_list_tail_gen t Ht _ rest Hs Hc).
+  - reflexivity.
+  - rewrite app_length. pose proof (tail_toks_len t). lia.
+Qed.
+
+(** a printed plain instruction never starts like a definition *)
+Lemma p_item_plain : forall i rest, wf_instr i = true ->
+  p_item Repaired (print_instr i ++ rest)
+  = bind (p_instruction Repaired (print_instr i ++ rest)) (fun i r => Ok (Plain i) r).
+Proof.
+  intros i rest Hwf.
+  destruct i as [c ? ?|c ? ?|c ? ? ?|c ?| |b| | | | | |mods| | | | | | | | | | | | | |b|b| |c ? ?|];
+    cbn [wf_instr] in Hwf;
+    try (destruct c; try discriminate Hwf); try (destruct b); try (destruct mods); reflexivity.
+Qed.
+
+Ltac norm_app := repeat (rewrite <- app_assoc; cbn [app]).
+
+Theorem item_rt : forall it rest, wf_item it = true -> block_end rest ->
+  p_item Repaired (print_core it ++ rest) = Ok it rest.
+Proof.
+  intros it rest Hwf Hbe. destruct it as [i|mods name ps qs body|name q target body|name ps qvars body|f attrs|name ext ps entries];
+    cbn [wf_item] in Hwf.
+  - (* Plain *)
+    cbn [print_core]. rewrite (p_item_plain i rest Hwf).
+    rewrite (instr_rt i rest Hwf (block_end_line_end rest Hbe)). reflexivity.
+  - (* DefCal *)
+    apply andb_true_iff in Hwf as [Hwf Hb]. apply andb_true_iff in Hwf as [Hps Hne].
+    cbn [print_core app].
+    assert (Hd : forall X, p_item Repaired (TCmd CDefCal :: map TModifier mods ++ TId name :: X)
+                           = p_defcal_gate Repaired (map TModifier mods ++ TId name :: X))
+      by (intros; destruct mods; reflexivity).
+    norm_app. rewrite Hd. unfold p_defcal_gate. rewrite (gate_head_rt mods name ps qs _ Hps).
+    cbn [p_colon bind]. rewrite (p_block_rt body rest Hne Hb Hbe). reflexivity.
+  - (* DefCalMeasure *)
+    apply andb_true_iff in Hwf as [Hne Hb].
+    destruct name as [n|]; destruct q as [k|x]; destruct target as [t|];
+      cbn [print_core app print_qubit p_item p_defcal_measure p_qubit bind p_colon];
+      rewrite (p_block_rt body rest Hne Hb Hbe); reflexivity.
+  - (* DefCircuit *)
+    apply andb_true_iff in Hwf as [Hne Hb].
+    cbn [print_core app p_item p_defcircuit]. norm_app.
+    rewrite p_var_params_rt by (intros _; destruct qvars; exact I).
+    rewrite p_qvars_rt by exact I. cbn [p_colon bind].
+    rewrite (p_block_rt body rest Hne Hb Hbe). reflexivity.
+  - (* DefFrame *)
+    apply andb_true_iff in Hwf as [Hwf Ha]. apply andb_true_iff in Hwf as [Hwf _].
+    apply andb_true_iff in Hwf as [Hf Hne].
+    cbn [print_core app p_item]. unfold p_defframe. norm_app.
+    rewrite (p_frame_rt f _ Hf). cbn [bind p_colon].
+    rewrite (p_attrs_rt attrs Ha).
+    + destruct attrs; [discriminate|reflexivity].
+    + exact Hbe.
+    + rewrite app_length. pose proof (attrs_len attrs). lia.
+  - (* DefWaveform *)
+    apply andb_true_iff in Hwf as [Hne Hes].
+    assert (Hs : stop rest) by (apply line_end_stop, block_end_line_end; exact Hbe).
+    assert (Hc : match rest with TComma :: _ => False | _ => True end)
+      by (destruct rest as [|[] rest]; cbn in Hbe; try contradiction; exact I).
+    cbn [print_core app p_item p_defwaveform]. norm_app.
+    destruct ext as [x|]; cbn [app wf_ext].
+    + rewrite p_var_params_rt by (intros _; exact I).
+      rewrite (p_expr_list1_rt entries rest Hne Hes Hs Hc). reflexivity.
+    + assert (Hx : wf_ext (print_var_params ps ++ TColon :: TNewLine :: TIndent :: sep_exprs entries ++ rest) = None)
+        by (destruct ps; reflexivity).
+      rewrite Hx. rewrite p_var_params_rt by (intros _; exact I).
+      rewrite (p_expr_list1_rt entries rest Hne Hes Hs Hc). reflexivity.
+Qed.
+
+(** ** Programs of items *)
+
+Lemma print_core_head : forall it, wf_item it = true -> forall rest, starts_instr (print_core it ++ rest).
+Proof.
+  intros [i| | | | |] Hwf rest; try exact I. apply print_instr_head; exact Hwf.
+Qed.
+
+Lemma items_loop_step : forall f it rest, wf_item it = true -> block_end rest ->
+  p_items_loop Repaired (S f) (print_core it ++ rest) =
+  match p_items_loop Repaired f rest with
+  | Ok l r' => Ok (it :: l) r'
+  | o => o
+  end.
+Proof.
+  intros f it rest Hwf Hbe. cbn [p_items_loop].
+  pose proof (print_core_head it Hwf rest) as Hs. rewrite (skip_starts _ Hs).
+  pose proof (item_rt it rest Hwf Hbe) as Hi.
+  destruct (print_core it ++ rest) as [|t ts]; [contradiction|]. rewrite Hi. reflexivity.
+Qed.
+
+Lemma items_loop_newline : forall f X,
+  p_items_loop Repaired f (TNewLine :: X) = p_items_loop Repaired f X.
+Proof. intros [|f] X; reflexivity. Qed.
+
+Lemma print_items_block_end : forall l, forallb wf_item l = true -> block_end (TNewLine :: print_items l).
+Proof.
+  intros [|it l] H; [exact I|]. cbn [forallb] in H. apply andb_true_iff in H as [Hi _].
+  cbn [print_items flat_map]. rewrite <- app_assoc.
+  pose proof (print_core_head it Hi ([TNewLine] ++ flat_map (fun it0 => print_core it0 ++ [TNewLine]) l)) as Hs.
+  destruct (print_core it ++ [TNewLine] ++ _) as [|[] ?]; cbn in Hs; try contradiction; exact I.
+Qed.
+
+Lemma items_loop_rt : forall l, forallb wf_item l = true ->
+  forall f, length l < f -> p_items_loop Repaired f (print_items l) = Ok l [].
+Proof.
+  induction l as [|it l IH]; intros Hwf f Hf; cbn [length] in Hf; (destruct f as [|f]; [lia|]).
+  - reflexivity.
+  - pose proof Hwf as Hwf0. cbn [forallb] in Hwf. apply andb_true_iff in Hwf as [Hi Hl].
+    cbn [print_items flat_map]. fold (print_items l). rewrite <- app_assoc. cbn [app].
+    rewrite (items_loop_step f it (TNewLine :: print_items l) Hi (print_items_block_end l Hl)).
+    rewrite items_loop_newline. rewrite (IH Hl f) by lia. reflexivity.
+Qed.
+
+Lemma print_items_len : forall l, length l <= length (print_items l).
+Proof.
+  induction l as [|i l IH]; cbn [print_items flat_map length]; [lia|].
+  fold (print_items l). rewrite !app_length. cbn [length]. lia.
+Qed.
+
+(** a program of well-formed items (plain instructions and block definitions), printed as
+    [Program::to_quil] does, parses back to itself *)
+Theorem items_rt : forall l, forallb wf_item l = true -> p_items Repaired (print_items l) = Ok l [].
+Proof.
+  intros l Hwf. unfold p_items. apply items_loop_rt; auto.
+  pose proof (print_items_len l). lia.
+Qed.
+
+(** a single item as [Instruction::to_quil] prints it (with the trailing newline of DEFCAL
+    MEASURE / DEFCIRCUIT) *)
+Theorem single_item_rt : forall it, wf_item it = true -> p_items Repaired (print_item it) = Ok [it] [].
+Proof.
+  intros it Hwf. unfold p_items, print_item.
+  assert (Hbe : block_end (print_trail it)) by (destruct it; exact I).
+  rewrite (items_loop_step _ it (print_trail it) Hwf Hbe).
+  destruct it; cbn [print_trail]; destruct (length _); reflexivity.
+Qed.
+
 (** * The instance checker *)
 
 Lemma ident_eqb_eq : forall a b, ident_eqb a b = true -> a = b.
@@ -933,6 +1244,20 @@ Proof.
   apply andb_true_iff in Hw as [Hwf Heq]. apply toks_eqb_eq in Heq. subst t2.
   apply andb_true_iff in Hbd as [-> ->].
   repeat split; auto. apply single_rt; exact Hwf.
+Qed.
+
+Theorem item_code_sound : forall t1 it1 t2 b d,
+  case_code (CItem t1 it1 t2 b d) = 0%N ->
+  wf_item it1 = true /\ t2 = print_item it1 /\
+  p_items Repaired t2 = Ok [it1] [] /\ b = true /\ d = true.
+Proof.
+  intros t1 it1 t2 b d H. unfold case_code in H.
+  destruct (b && d) eqn:Hbd; cbn [negb] in H; [|discriminate].
+  destruct (parses_to_item t2 it1); cbn [negb] in H; [|discriminate].
+  destruct (wf_item it1 && toks_eqb (print_item it1) t2) eqn:Hw; cbn [negb] in H; [|discriminate].
+  apply andb_true_iff in Hw as [Hwf Heq]. apply toks_eqb_eq in Heq. subst t2.
+  apply andb_true_iff in Hbd as [-> ->].
+  repeat split; auto. apply single_item_rt; exact Hwf.
 Qed.
 
 Theorem opaque_code_sound : forall a b d, case_code (COpaque a b d) = 0%N ->
@@ -1005,4 +1330,28 @@ Proof.
   - intros ->. cbn in Hiff. auto.
   - intros Hn. rewrite Hn in Hiff. destruct r; cbn in Hiff; try discriminate; reflexivity.
   - intros Hn. rewrite Hn in Hrp. destruct rp as [[]|]; try discriminate; reflexivity.
+Qed.
+
+(** the C04 model comparison: a fragment with code 0 is a well-formed tree whose printed tokens are
+    the model's print of it, they parse back to exactly the tree, and the real re-parse printed
+    by the model gives the same tokens *)
+Theorem frag_code_sound : forall a t j, frag_code (a, t, j) = 0%N ->
+  wf_item a = true /\ t = print_item a /\ p_items Repaired t = Ok [a] [] /\
+  exists j', j = Some j' /\ print_item j' = print_item a.
+Proof.
+  intros a t j H. unfold frag_code in H.
+  destruct (parses_to_item t a); cbn [negb] in H; [|discriminate].
+  destruct (wf_item a && toks_eqb (print_item a) t) eqn:Hw; cbn [negb] in H; [|discriminate].
+  apply andb_true_iff in Hw as [Hwf Heq]. apply toks_eqb_eq in Heq. subst t.
+  destruct j as [j|]; [|discriminate].
+  destruct (toks_eqb (print_item j) (print_item a)) eqn:Hj; [|discriminate].
+  apply toks_eqb_eq in Hj.
+  repeat split; auto. { apply single_item_rt; exact Hwf. } exists j; auto.
+Qed.
+
+Theorem phx_code_sound : forall c f, phx_code (c, f) = 0%N ->
+  ph_code c = 0%N /\ match f with Some fr => frag_code fr = 0%N | None => True end.
+Proof.
+  intros c f H. unfold phx_code in H. cbn [fst snd] in H.
+  destruct f as [fr|]; split; try exact I; lia.
 Qed.
